@@ -29,7 +29,7 @@ TRANSLATED = {      # (class, function) -> (part, theorem)
     ('AnsiString', 'find_settings'): ('guard + everything after the scrubber', 'C17b.find_guard_is_code, C17d.findCore_is_code'),
     ('AnsiString', '__getitem__'): ('from `new_s._s = …` on (+ `_slice_val_to_idx`)', 'C04c.getItemCore_is_code'),
     ('AnsiString', '__iadd__'): ('after the operand is an AnsiString', 'C05d.iaddCore_eq / _is_code'),
-    ('AnsiString', 'to_str'): ('the rendering loop (after the format spec)', 'C01b.renderCore_is_code'),
+    ('AnsiString', 'to_str'): ('whole: spec part with its regular expression, then the rendering loop', 'C12e.toStr_is_code, C01b.renderCore_is_code, C12d.spec_is_code'),
     ('AnsiString', '_slice_val_to_idx'): ('whole', 'C04b.sliceIdx_is_code'),
     ('AnsiString', '_find_setting_reference'): ('whole', 'C05c.find_reference_is_code'),
     ('AnsiString', '_same_setting_references'): ('whole', 'C05c.same_references_is_code'),
@@ -43,6 +43,12 @@ TRANSLATED = {      # (class, function) -> (part, theorem)
     ('_AnsiSettingsIterator', '__next__'): ('after the point is fetched', 'C09c.iter_step_is_code / _asserting'),
     ('AnsiStr', '__getnewargs__'): ('whole', 'C13c.code_newargs, copy_inv'),
     ('_AnsiControlFn', 'rgb'): ('the channel arithmetic', 'C14b.split_is_code, clamp_is_code'),
+    ('AnsiString', '_split'): ('whole', 'C11e.split_is_code'),
+    ('AnsiString', 'splitlines'): ('whole', 'C11e.splitlines_is_code'),
+    ('AnsiString', 'partition'): ('whole', 'C11e.partition_is_code'),
+    ('AnsiString', 'rpartition'): ('whole', 'C11e.rpartition_is_code'),
+    ('AnsiString', '_apply_string_format'): ('whole (apply_formatting as a hand-modelled external); its five regular expressions', 'C12e.applyStringFormat_is_code, C12d.left_is_code'),
+    ('_AnsiSettingPoint', '_parse_rgb_string'): ('its three regular expressions', 'C14c.rgb3_is_code, C14c.rgb1_is_code, C14c.color256_is_code'),
     ('-', 'settings_to_dict'): ('whole', 'C18b.settings_to_dict_is_code'),
     ('-', 'parse_graphic_sequence'): ('whole, both input forms', 'C18b.pgs_str_is_code, pgs_list_is_code'),
 }
@@ -63,6 +69,8 @@ def extra_from_generated():
     if 'SettingParsable.lean' in have: out[('AnsiSetting', 'parsable')] = ('whole, with its cache', 'C15d.parsable_is_code')
     if 'SettingToList.lean' in have: out[('AnsiSetting', 'to_list')] = ('whole', 'C15d.to_list_is_code')
     if 'SettingInitialParam.lean' in have: out[('AnsiSetting', 'get_initial_param')] = ('whole', 'C15d.initial_param_is_code')
+    if 'Tokenize.lean' in have: out[('ParsedAnsiControlSequenceString', '__init__')] = ('whole', 'C19c.tokenize_is_code')
+    if 'FormattedStr.lean' in have: out[('ParsedAnsiControlSequenceString', 'formatted_str')] = ('whole', 'C19c.formatted_is_code')
     return out
 
 
